@@ -171,11 +171,37 @@ def run_case(case):
             gen.rng_for(sd, "C09set", idx).shuffle(names)
             for nm in names:
                 setattr(sc, nm, kw[nm])
+            refused_assignments(sc, kw)
             _scribble(kw["t_sample"])
             return sc
         sc = RDScript(**kw)
+        refused_assignments(sc, kw)
         _scribble(kw["t_sample"])           # the script owns its requested times: the caller's container is the caller's
         return sc
+
+    def held(sc):
+        return (repr(sc.t_max), repr(sc.time_step), repr(sc.sampling_interval), sc.sampling_policy,
+                [float(x) for x in sc.t_sample.value], repr(sc.t_sample.units), sc.rng_seed, sc.init_state_processing)
+
+    def refused_assignments(sc, kw):
+        """assignments the script must refuse (wrong dimension, not a quantity): a refused assignment leaves the script as it was"""
+        rq = gen.rng_for(sd, "C09refuse", idx)
+        if rq.random() > 0.3:
+            return
+        for _ in range(rq.randint(1, 3)):
+            nm, val = rq.choice([("t_max", "2 µm"), ("t_max", "abc s"), ("t_max", [1.0, 2.0]), ("time_step", "3 mol"),
+                                 ("time_step", "fast"), ("sampling_interval", "1 µm2/s"), ("sampling_interval", "often"),
+                                 ("t_sample", "now and then"), ("t_sample", UnitArray([0.0, 1.0], "µm"))])
+            before = held(sc)
+            try:
+                setattr(sc, nm, val)
+            except Exception:
+                cnt("refused_assignments")
+                if held(sc) != before:
+                    fail("a refused assignment changed the script", field=nm, value=repr(val), before=str(before)[:300], after=str(held(sc))[:300])
+            else:
+                # accepted (whether it should have been is C20's subject): put the valid value back
+                setattr(sc, nm, kw[nm] if nm in kw else "default")
     try:
         script_ref = mk("on_iteration")
         script = mk(policy)
